@@ -10,6 +10,9 @@ let fr_of_hex s : fr = of_Z (ZA.of_string ("0x" ^ s))
 let hex_of_fr (x : fr) : string = ZA.format "%x" (val0 x)
 
 let st = ref initialized
+let tr = ref (transcript_new [])
+let bytes_of_hex s = if s = "-" then [] else List.init (String.length s / 2) (fun i -> ZA.of_int (int_of_string ("0x" ^ String.sub s (2*i) 2)))
+let hex_of_bytes l = String.concat "" (List.map (fun b -> Printf.sprintf "%02x" (ZA.to_int b)) l)
 let split s = List.filter (fun x -> x <> "") (String.split_on_char ' ' s)
 let fr = fr_of_hex
 let results : int list ref = ref []   (* witnesses returned so far, oldest first *)
@@ -163,6 +166,21 @@ let step line =
       Printf.printf "Z %s %s %s\n" name (hex_of_fr e) (hex_of_fr c)
   | ["Z"; name; "capacity"; c; deg] ->
       Printf.printf "Z %s %b %b\n" name (direct_route_ok (nat c) (nat deg)) (compressed_route_ok (nat c) (nat deg))
+  | ["M"; "new"; l] -> tr := transcript_new (bytes_of_hex l)
+  | ["M"; "msg"; l; m] -> tr := append_message (bytes_of_hex l) (bytes_of_hex m) !tr
+  | ["M"; "u64"; l; n] -> tr := append_u64 (bytes_of_hex l) (ZA.of_string n) !tr
+  | ["M"; "chal"; l; n] -> let (b, t') = challenge_bytes (bytes_of_hex l) (nat n) !tr in tr := t'; Printf.printf "M %s\n" (hex_of_bytes b)
+  | ["V"; name; ver; x; vb; pb; pis] ->
+      let pis = if pis = "-" then [] else List.map fr (String.split_on_char ',' pis) in
+      let (r, chs) = ref_verify (ver = "V3") (fr x) (bytes_of_hex vb) (bytes_of_hex pb) pis in
+      Printf.printf "V %s %s %s\n" name (match r with Accept -> "ACCEPT" | Reject -> "REJECT" | RejectPiLen -> "REJECT_PILEN" | Malformed -> "MALFORMED")
+        (String.concat "," (List.map hex_of_fr chs))
+  | ["G1LIN"; name; base; sc; g] ->
+      (match g1_lin (bytes_of_hex base) (ZA.of_string ("0x" ^ sc)) (bytes_of_hex g) with
+       | Some b -> Printf.printf "G1LIN %s %s\n" name (hex_of_bytes b)
+       | None -> Printf.printf "G1LIN %s NONE\n" name)
+  | "B" :: name :: k :: point :: b0 :: b1 :: col ->
+      Printf.printf "B %s %s\n" name (hex_of_fr (wire_opening (nat k) (List.map fr col) (fr b0) (fr b1) (fr point)))
   | ["snap"] -> snap ()
   | ["sat"] -> sat ()
   | _ -> Printf.printf "ERR unknown op: %s\n" line
